@@ -74,6 +74,12 @@ def small_int_programs():
     for src in ("def f(a: Qint[3], b: Qint[3]) -> Qint[3]:\n    return a * b + a", "def f(a: Qint[3], b: Qint[3]) -> bool:\n    return a + b == 5",
                 "def f(a: Qint[2], b: Qint[2], c: Qint[2]) -> Qint[2]:\n    return a + b + c", "def f(a: Qint[3]) -> Qint[3]:\n    return a * 3 + 1"):
         out.append(src)
+    # a function WITHOUT zeros whose value repeats one bit expression on several return bits: the multiplicity decides the minimisers
+    for ret in ("(n, n, a, b)", "(a, n, b, n)", "(n, a, n, b, n)"):
+        tt = ", ".join(["bool"] * (ret.count(",") + 1))
+        out.append(f"def f(a: bool, b: bool) -> Tuple[{tt}]:\n    n = not (a or b)\n    return {ret}")
+    out.append("def f(a: bool, b: bool, c: bool) -> Tuple[bool, bool, bool, bool, bool]:\n    n = not (a or b or c)\n    return (n, n, a ^ b, b ^ c, n)")
+    out.append("def f(a: Qint[2]) -> Tuple[bool, bool, bool, bool]:\n    z = a == 0\n    return (z, z, a[0], a[1])")
     return [{"src": s, "origin": "small-int"} for s in out]
 
 
@@ -100,4 +106,8 @@ def exprgen_programs(tier, seed, pairs=False):
         for k in range(0, len(trees) - 1, 2):
             out.append({"src": "def f(a: bool, b: bool, c: bool) -> Tuple[bool, bool]:\n"
                                f"    return ({tree_src(trees[k])}, {tree_src(trees[k + 1])})", "origin": "ExprGen-pair"})
+            if k % 3 == 0:  # the same bit expression on several return bits (its weight in the energy is its multiplicity)
+                out.append({"src": "def f(a: bool, b: bool, c: bool) -> Tuple[bool, bool, bool, bool]:\n"
+                                   f"    return ({tree_src(trees[k])}, {tree_src(trees[k])}, {tree_src(trees[k + 1])}, not ({tree_src(trees[k + 1])}))",
+                            "origin": "ExprGen-pair"})
     return out
